@@ -1,5 +1,6 @@
 // C03 — small-block allocator hands out disjoint, intact, fully accounted memory (DESIGN.md §5 C03)
 #include "harness.h"
+#include <errno.h>
 
 #include <aws/common/allocator.h>
 #include <aws/common/thread.h>
@@ -434,6 +435,19 @@ RunInfo run(const sim::Plan &plan) {
         if (!sim::live_pages().empty()) sim::violation("c03:destroy-leak", "destroy of the earlier allocator instance left %zu page(s)", sim::live_pages().size());
         sim::probe("prior_allocator_instance_destroyed");
     }
+    int mif = mt ? (int)plan.get("mutex_init_fail", 0) : 0; // the k-th bin mutex cannot be initialised: creation must fail cleanly, then succeed
+    if (mif) {
+        size_t live_before = simalloc::live_count();
+        sim::set_mutex_init_fail(mif, (int)plan.get("mutex_init_errno", EAGAIN));
+        struct aws_allocator *failed = aws_small_block_allocator_new(c.parent, true);
+        sim::set_mutex_init_fail(0, 0);
+        if (failed) sim::violation("c03:new", "aws_small_block_allocator_new succeeded although the mutex of bin %d could not be initialised", mif - 1);
+        if (simalloc::live_count() != live_before)
+            sim::violation("c03:new-leak", "failed aws_small_block_allocator_new (mutex of bin %d) left %zu block(s) of the parent allocator behind: %s", mif - 1,
+                           simalloc::live_count() - live_before, simalloc::describe_live().c_str());
+        if (!sim::live_pages().empty()) sim::violation("c03:new-leak", "failed aws_small_block_allocator_new left %zu page(s)", sim::live_pages().size());
+        sim::probe("allocator_creation_failed_cleanly");
+    }
     c.sba = aws_small_block_allocator_new(c.parent, mt);
     if (!c.sba) sim::violation("c03:new", "aws_small_block_allocator_new returned NULL");
     if (aws_small_block_allocator_bytes_active(c.sba) != 0) sim::violation("c03:bytes-active", "fresh allocator reports active bytes");
@@ -534,6 +548,7 @@ void gen(uint64_t seed, int tier, sim::Plan &p) {
     p.cfg["multi_threaded"] = mt;
     p.cfg["nworkers"] = nw;
     p.cfg["use_thread"] = r.chance(0.5);
+    if (mt && r.chance(0.05)) { p.cfg["mutex_init_fail"] = r.range(1, 5); p.cfg["mutex_init_errno"] = r.pick(std::vector<int64_t>{EAGAIN, ENOMEM, EPERM}); }
     hgen::sched_config(r, p, nw > 1, false, true, false, -1);
     p.cfg["alloc_realloc"] = r.chance(0.8);
     p.cfg["alloc_calloc"] = r.chance(0.8);
